@@ -216,6 +216,8 @@ IO_SUBST = [
     (r"\bMAGIC_HEADER\b", "verif_magic_header_obj", 0, True),
     (r"\bMAGIC_FOOTER\b", "verif_magic_footer_obj", 0, True),
     (r"\b(?:utility::)?read_binary\s*<\s*uint32_t\s*>\s*\(", "read_binary_u32(", 0, True),
+    (r"\b(?:utility::)?read_binary\s*<\s*(?:std::)?uint64_t\s*>\s*\(", "read_binary_u64(", 0, True),
+    (r"\b(?:utility::)?read_binary\s*<\s*std::uint32_t\s*>\s*\(", "read_binary_u32(", 0, True),
     (r"\b(?:utility::)?read_binary\s*<\s*float\s*>\s*\(", "read_binary_f32(", 0, True),
     (r"\b(?:utility::)?read_binary\s*<\s*double\s*>\s*\(", "read_binary_f64(", 0, True),
     (r"\b(?:utility::)?read_io_header\s*\(", "read_io_header(", 0, True),
@@ -257,7 +259,8 @@ ARRAY_IO_SUBST = IO_SUBST + [
     (r"(?s)(?:utility::)?read_binary\s*<\s*__typeof__\s*\(\s*m_size\s*\)\s*>\s*\(", "read_binary_u64(", 0, True),
     (r"\bauto\s+size\b", "uint64_t size", 0, True),
     (r"(?s)std::unique_ptr\s*<\s*vector_t\s*\[\s*\]\s*>\s*(\w+)\s*=\s*std::make_unique\s*<\s*vector_t\s*\[\s*\]\s*>\s*\(", r"OUT_VEC_T *\1 = verif_make_unique_array(", 0, True),
-    (r"(?s)using\s+scalar_t\s*=\s*typename\s+_output_vector_t::type\s*;", "/* using scalar_t = OUT_SCALAR_T */", 0, True),
+    (r"(?s)std::make_unique\s*<\s*vector_t\s*\[\s*\]\s*>\s*\(", "verif_make_unique_array(", 0, True),
+    (r"(?s)using\s+scalar_t\s*=\s*typename\s+_output_vector_t::type\s*;", "/* alias scalar_t is OUT_SCALAR_T */", 0, True),
     (r"\bscalar_t\b", "OUT_SCALAR_T", 0, True),
     (r"typename\s+_output_vector_t::type", "OUT_SCALAR_T", 0, True),
     (r"_output_vector_t::size", "DIMS_OUT", 0, True),
@@ -573,6 +576,7 @@ AFF_SUBST = [
     (r"vector\s*<\s*N\s*,\s*T\s*,\s*I\s*>", "VEC_N", 0, True),
     (r"matrix\s*<\s*N\s*\+\s*1\s*,\s*N\s*\+\s*1\s*,\s*T\s*,\s*I\s*>", "MAT_N1_N1", 0, True),
     (r"(?s)return\s+matrix\s*<\s*N\s*,\s*N\s*\+\s*1\s*,\s*T\s*,\s*I\s*>\s*::\s*operator\s*\*\s*\(\s*(\w+)\s*\)", r"return mat_mul_a(self, &\1)", 0, True),
+    (r"(?s)return\s+(?:base_t|parent_t|matrix_t)\s*::\s*operator\s*\*\s*\(\s*(\w+)\s*\)", r"return mat_mul_a(self, &\1)", 0, True),
     (r"matrix\s*<\s*N\s*,\s*N\s*\+\s*1\s*,\s*T\s*,\s*I\s*>\s*::\s*identity\s*\(\s*\)", "mat_identity()", 0, True),
     (r"matrix\s*<\s*N\s*,\s*N\s*\+\s*1\s*,\s*T\s*,\s*I\s*>", "MAT_N_N1", 0, True),
     (r"(?s)array::array\s*<\s*T\s*,\s*N\s*>\s*arr\s*\{\s*args\s*\.\.\.\s*\}\s*;", "ARGS_T arr = args;", 0, True),
@@ -585,9 +589,9 @@ SA_DROP = [r"(?s)static_assert\s*\(.*?\)\s*;"]
 def make_affine(name, consts):
     fns = []
     fns.append(Fn("mat_mul_a", ALG_MATRIX, ["struct matrix"], "operator*", ret="VEC_N", ptypes=["const VEC_N1 *"], method="const MAT_N_N1 *self",
-                  subst=mat_subst("DIMS_IN", "N1", "1", "VEC_N"), mats={"o": ("->", "mat"), "r": (".", "mat")}))
+                  subst=mat_subst("DIMS_IN", "N1", "1", "VEC_N"), mats={"o": ("->", "mat"), "r": (".", "mat")}, members=["m_elems"]))
     fns.append(Fn("mat_mul_b", ALG_MATRIX, ["struct matrix"], "operator*", ret="MAT_N1_N1", ptypes=["const MAT_N1_N1 *"], method="const MAT_N1_N1 *self",
-                  subst=mat_subst("N1", "N1", "N1", "MAT_N1_N1"), mats={"o": ("->", "mat"), "r": (".", "mat")}))
+                  subst=mat_subst("N1", "N1", "N1", "MAT_N1_N1"), mats={"o": ("->", "mat"), "r": (".", "mat")}, members=["m_elems"]))
     fns.append(Fn("mat_identity", ALG_MATRIX, ["struct matrix"], "identity", ret="MAT_N_N1", ptypes=[],
                   subst=mat_subst("DIMS_IN", "N1", "1", "MAT_N_N1"), mats={"result": (".", "mat")}))
     fns.append(Fn("affine_apply", ALG_AFFINE, ["struct affine"], "operator*", params_hint=r"vector", ret="VEC_N", ptypes=["const VEC_N *"],
